@@ -65,7 +65,7 @@ CHECKS["C14"] = {
     "rule": ("A case is (content type from the six registered + unknown/parameterised/empty, request message, 0..5 handler messages (0..2 for Twirp, whose response carries one: a second send must be refused and the call must not be answered with a success holding part of the messages), nil or an error "
              "from the error grammar (arbitrary bytes incl. CR/LF/NUL/non-UTF-8/'%', drpcerr codes incl. 2^64-1 at wrap depth 0..6 through %w/errs/Cause/Unwrap/opaque layers, "
              "Twirp-style Code() string incl. unknown codes and codes with CR/LF, hostile shapes: nil Unwrap/Cause, cycles, Code methods of wrong arity/type, typed nil, 130-deep chains), "
-             "0..4 metadata header entries (escaped k=v, key only, or raw strings over an alphabet weighted to '%', '=', hex and non-hex digits)). "
+             "0..4 metadata header entries (escaped k=v, key only, or raw strings over an alphabet weighted to '%', '=', hex and non-hex digits), optionally another gateway in the same process that installs a protocol of its own for the same content type (which must not change this gateway's answers)). "
              "Oracle: independent parse of the recorded response (status table copied from the Twirp spec, JSON body, grpc-web frames, base64 chunk-wise, trailer split on CRLF "
              "with no bare CR/LF and exactly the expected keys), handler request/metadata equality with a reference percent-decoder (net/url.PathUnescape). "
              "Sub-check limits: bodies of limit-1/limit/limit+1/... bytes in both directions, dishonest grpc-web length fields, corrupt base64; over-limit must be rejected, never truncated, allocation bounded. "
